@@ -6,7 +6,7 @@ from props import c01
 def run(R):
     if not R.build():
         return
-    R.lean(["C05"])
+    R.lean(["C05", "C05Run"])
     import hunted
     hunted.run(R, "C05")
     quick = R.tier == "quick"
@@ -51,8 +51,10 @@ def run(R):
                 continue
             # reversed D2: a zero-context hunk that deletes the first lines of a file that stays non-empty
             import re
-            if re.search(rb"(?m)^@@ -\d+(,\d+)? \+0,0 @@", text) and not all(k == "delete" for k in ch.values()):
-                if any(p in B for p in A):
+            # (known finding D2, mirror image: under -R a hunk whose new side is empty and stated at line 0 becomes a context-free
+            #  insertion at the top; excluded whenever some file of tree B is non-empty - unified, context and normal spelling)
+            if re.search(rb"(?m)^(@@ -\d+(,\d+)? \+0,0 @@|--- 0 ----$|\d+(,\d+)?d0$)", text) and any(l for l, m in B.values()):
+                if not all(k in ("delete", "delete-empty") for k in ch.values()):
                     continue
             jobs.append(dict(cut=R.cut, tree=drv.tree_with_patch(B, text), argv=[b"-R", b"-p1", b"-i", drv.PATCHNAME]))
             meta2.append((A, B, ch, prod, ctx, text, "direct"))
